@@ -8,6 +8,7 @@ source text), so a re-layout is harmless and a changed name / key / dimension is
 * ``CONNECTIVITY_NAMES``, ``UGRID_COMPLIANT_CONNECTIVITY_NAMES``, ``DIM_NAMES``, the coordinate-name lists
 * ``VAR_DIMS``                       variable -> dims, from CONNECTIVITY / SPHERICAL_COORDS / CARTESIAN_COORDS / N_NODES_PER_FACE
 * ``VAR_ATTRS``                      variable -> [(attribute key, kind)], kind: 0 str, 1 number, 2 numeric array, 3 bool, 4 other
+* ``VAR_START_INDEX``                connectivity variable -> its conventional ``start_index`` attribute
 * ``EXODUS_ELEMENT_SIZES``           the sizes k in 1..MAX_ELEM for which ``_get_element_type(k)`` returns a name
 * ``NAMES``                          every name above + the literals the encoders use: the table through which names cross
                                      the integer-only line protocol (harness and driver index the same list)
@@ -75,6 +76,10 @@ def read_conventions():
         for name, e in d.items():
             var_dims.append((str(name), [str(x) for x in e["dims"]]))
             var_attrs.append((str(name), [(str(k), attr_kind(v)) for k, v in e["attrs"].items()]))
+    start_index = []
+    for name, e in getattr(U, "CONNECTIVITY", {}).items():
+        if "start_index" in e["attrs"]:
+            start_index.append((str(name), int(e["attrs"]["start_index"])))
     if hasattr(U, "N_NODES_PER_FACE_DIMS"):
         var_dims.append(("n_nodes_per_face", [str(x) for x in U.N_NODES_PER_FACE_DIMS]))
         var_attrs.append(("n_nodes_per_face", [(str(k), attr_kind(v)) for k, v in U.N_NODES_PER_FACE_ATTRS.items()]))
@@ -98,7 +103,8 @@ def read_conventions():
                 pass
     except Exception as e:  # noqa: BLE001
         notes.append(f"_get_element_type: {type(e).__name__}: {e}")
-    return dict(base_str=base_str, base_non=base_non, var_dims=var_dims, var_attrs=var_attrs, lists=lists, elem=elem), notes
+    return dict(base_str=base_str, base_non=base_non, var_dims=var_dims, var_attrs=var_attrs, lists=lists, elem=elem,
+                start_index=start_index), notes
 
 
 def name_table(c=None):
@@ -163,6 +169,9 @@ def gen_conv(notes):
     out.append("def VAR_ATTRS : List (String × List (String × Nat)) := [")
     out.append(",\n".join("  (" + _s(n) + ", [" + ", ".join(f"({_s(k)}, {kd})" for k, kd in at) + "])" for n, at in c["var_attrs"]))
     out.append("]\n")
+    out.append("/-- the `start_index` attribute the conventions give each connectivity variable -/")
+    out.append("def VAR_START_INDEX : List (String × Int) := ["
+               + ", ".join(f"({_s(n)}, {v})" for n, v in c["start_index"]) + "]\n")
     out.append(f"/-- sizes `k ≤ {MAX_ELEM}` for which `io._exodus._get_element_type(k)` returns a name -/")
     out.append("def EXODUS_ELEMENT_TYPES : List (Nat × String) := ["
                + ", ".join(f"({k}, {_s(v)})" for k, v in c["elem"]) + "]\n")
